@@ -159,6 +159,7 @@ type Summary struct {
 	WallS        float64        `json:"wall_s"`
 	Exhausted    bool           `json:"exhausted"` // enumeration finished
 	Problems     []string       `json:"problems"`
+	AggSig       string         `json:"agg_sig"` // order-dependent hash over (run index, signature, tape length) of all runs
 	ReplayOK     bool           `json:"replay_ok"`
 	ReplayMsg    string         `json:"replay_msg"`
 }
@@ -303,6 +304,8 @@ func explore(t *testing.T, h *Harness, job *Job) *Summary {
 	ssigs := map[uint64]struct{}{}
 	states := map[string]struct{}{}
 	seenClass := map[string]int{}
+	agg := fnv.New64a()
+	defer func() { sum.AggSig = fmt.Sprintf("%016x", agg.Sum64()) }()
 	if job.MaxFail == 0 {
 		job.MaxFail = 1
 	}
@@ -327,6 +330,7 @@ func explore(t *testing.T, h *Harness, job *Job) *Summary {
 		}
 		res := Execute(t, h, job.Property, job.Tier, scn, runSeed, nil, false)
 		sum.Runs++
+		fmt.Fprintf(agg, "%d:%x:%d:%d;", i, res.Sig, len(res.Tape), len(res.Failures))
 		sum.Steps += int64(res.Steps)
 		sum.Switches += int64(res.Switches)
 		sum.Tasks += int64(res.Tasks)
